@@ -13,7 +13,7 @@ Hypothesis deflate_small : forall d p, (Z.of_nat (length (deflate_raw d p)) < 2 
 Hypothesis H_flate : forall d p lim, (Z.of_nat (length p) <= lim)%Z ->
   inflate d (strip_tail (deflate_raw d p) ++ flate_tail9) lim = Some p.
 
-(* For every sequence of text/binary messages (any lengths from 0 up to the limits - every length-encoding boundary -,
+(* For every sequence of text/binary messages - with pings and pongs carrying payloads interleaved - (any lengths from 0 up to the limits - every length-encoding boundary -,
    any contents, one or several slices), any sender configuration (role, compression negotiated or not, any
    threshold, any window size / takeover via the window value ws) and a receiver of the opposite role with the same
    negotiated compression and a read limit the messages fit: the bytes produced by the sender's write path, fed to the
